@@ -6,7 +6,7 @@
     [Context]; the writer is [SmtSer.ser] (C05).  [rt e mb] is the expression the reader
     builds from the writer's output of [e]; [equiv] = well-typed, same type, same value
     under every well-formed assignment. *)
-From Patronus Require Import SmtParse SmtParseLemmas SmtParseProofs SmtRoundTrip SmtLexProofs SmtValueProofs.
+From Patronus Require Import SmtParse SmtParseLemmas SmtParseProofs SmtRoundTrip SmtLexProofs SmtValueProofs SmtCmdRoundTrip.
 Open Scope string_scope.
 Open Scope list_scope.
 Open Scope N_scope.
@@ -56,6 +56,36 @@ Theorem C14_machine_sx :
     sxi st t = POk it -> runs_to st (toks_of_sx t) it /\ plain_item it = true.
 Proof. exact machine_sx. Qed.
 Print Assumptions C14_machine_sx.
+
+(** Commands: declare-const, define-fun, assert, get-value, check-sat-assuming with exactly one
+    assumption, push, pop, set-logic, set-option, exit, check-sat are read back by
+    [parse_command] as the same command ([rt_cmd]: expressions replaced by the equivalent
+    expression of [C14_parse_ser]). *)
+Theorem C14_parse_cmd_ser :
+  forall (top : symtab) (c : smt_cmd) (t : sx),
+    cmd_rt_pre top c -> ser_cmd c = Ok t -> parse_command_toks top (toks_of_sx t) = POk (rt_cmd c).
+Proof. exact parse_cmd_ser_lemma. Qed.
+Print Assumptions C14_parse_cmd_ser.
+
+(** ... the other commands the writer emits are NOT read back (recorded defects): more or fewer
+    than one assumption, get-unsat-assumptions, set-info (read as set-option). *)
+Theorem C14_cmd_not_read_back_refuted :
+  (exists t, ser_cmd (CCheckSatAssuming [BVSymbol "a" 1; BVSymbol "b" 1]) = Ok t /\
+             parse_command_toks [("a", BVSymbol "a" 1); ("b", BVSymbol "b" 1)] (toks_of_sx t) = PErr) /\
+  (exists t, ser_cmd (CCheckSatAssuming []) = Ok t /\ parse_command_toks [] (toks_of_sx t) = PErr) /\
+  (exists t, ser_cmd CGetUnsatAssumptions = Ok t /\ parse_command_toks [] (toks_of_sx t) = PErr) /\
+  (exists t, ser_cmd (CSetInfo "status" "sat") = Ok t /\ parse_command_toks [] (toks_of_sx t) = POk (CSetOption "status" "sat")).
+Proof. exact cmd_not_read_back_witness. Qed.
+Print Assumptions C14_cmd_not_read_back_refuted.
+
+(** Recorded defect: the hypothesis "no key of the symbol table is a numeral" of the round trip
+    cannot be dropped. *)
+Theorem C14_numeral_symbol_refuted :
+  let e := BVSlice (BVSymbol "x" 8) 3 0 in
+  let top := [("x", BVSymbol "x" 8); ("3", BVSymbol "3" 1)] in
+  wt e = true /\ built e = true /\ parse_expr_toks top (toks_of_sx (ser e false)) = PErr.
+Proof. exact numeral_symbol_witness. Qed.
+Print Assumptions C14_numeral_symbol_refuted.
 
 (** malformed_is_error is REFUTED by the model (and by the implementation): every proper
     prefix, in tokens, of the writer's output makes the reader panic ([todo!] at
